@@ -376,11 +376,11 @@ def startAlice (K : Crypto) (a : Ake) (fresh : Nat) : Party where
 /-- A new AKE replaces a private conversation that is still open on this side: all of its D-H keys
     are forgotten at once, so "Revealing MAC keys" applies to every one of them — the receiving MAC
     keys that were used to verify a message must, all receiving MAC keys its key pairs generated
-    may, be revealed in the next Data Message (of the new conversation). A side that has seen the
-    peer's disconnect (MSGSTATE_FINISHED) has discarded the old keys already. `recvMacs` are the
-    receiving MAC keys of the old side's four key pairs. -/
+    may, be revealed in the next Data Message (of the new conversation). The same holds for a side that
+    has seen the peer's disconnect (MSGSTATE_FINISHED): it cannot send anything until a new conversation
+    begins, whose first Data Message is then "the next" one. `recvMacs` are the receiving MAC keys of
+    the old side's four key pairs. -/
 def Party.carryOver (old new : Party) (recvMacs : List Bytes) : Party :=
-  if old.finished then new else
   let must := old.mustReveal ++ (old.verified.map (·.2)).filter (fun k => !old.mustReveal.contains k)
   { new with mustReveal := must, mayReveal := (old.mayReveal ++ recvMacs ++ must).eraseDups }
 
